@@ -94,6 +94,12 @@ func checkC02(r *Run) {
 	thirdKind := hdr.Weighted(3, 2, 2, 2) // inner, left, right, full (for the outer nesting)
 	optimize := hdr.Chance(2, 3)
 	sticky := []int{0, 50, 90}[hdr.Draw(3)]
+	// how the result is observed: the simulator's collecting sink above the materialised plan, or what
+	// `octosql -o <mode>` prints (RunE's own tail and the real printers, see cli.go)
+	outMode := ""
+	if m := hdr.Weighted(5, 1, 1, 1, 1, 1); m > 0 {
+		outMode = OutputModes[m-1]
+	}
 
 	L := genTable(t.Block(6*maxRows), "l", maxRows, true)
 	R := genTable(t.Block(6*maxRows), "r", maxRows, true)
@@ -131,14 +137,17 @@ func checkC02(r *Run) {
 	}
 
 	attrs := map[string]string{"join": strings.ToLower(strings.ReplaceAll(joinSQL[joinKind], " ", "_"))}
+	if outMode != "" {
+		attrs["output"] = outMode
+	}
 	r.Log("sql: %s", sql)
-	r.Log("optimize=%v sticky=%d", optimize, sticky)
+	r.Log("optimize=%v sticky=%d output=%s", optimize, sticky, outMode)
 	r.Log("l: %s", tableString(L))
 	r.Log("r: %s", tableString(R))
 	if third {
 		r.Log("s: %s", tableString(S))
 	}
-	r.Shape(joinKind, nKeys, theta, where, third, thirdKind, optimize, len(L), len(R), len(S))
+	r.Shape(joinKind, nKeys, theta, where, third, thirdKind, optimize, len(L), len(R), len(S), outMode)
 
 	ctl := NewCtl()
 	mk := func(name string, rows [][]octosql.Value) *SimTable {
@@ -146,10 +155,14 @@ func checkC02(r *Run) {
 			Source: func() execution.Node { return &ScriptSource{Name: name, Msgs: rowsToScript(rows), Ctl: ctl} }}
 	}
 	tables := map[string]*SimTable{"l": mk("L", L), "r": mk("R", R), "s": mk("S", S)}
-	planned, err := PlanSQL(bubbleCtx(), sql, tables, optimize)
-	if err != nil {
-		r.Infra("query did not plan: %v", err)
-		return
+	var planned *Planned
+	if outMode == "" {
+		var err error
+		planned, err = PlanSQL(bubbleCtx(), sql, tables, optimize)
+		if err != nil {
+			r.Infra("query did not plan: %v", err)
+			return
+		}
 	}
 
 	// reference
@@ -212,7 +225,39 @@ func checkC02(r *Run) {
 		}
 		return t.Draw(len(en))
 	}
-	oc := RunGated(r, planned.Node, ctl, produce, metaSend, choose, 20000)
+	var oc GatedOutcome
+	if outMode == "" {
+		oc = RunGated(r, planned.Node, ctl, produce, metaSend, choose, 20000)
+	} else {
+		var text string
+		text, oc = RunCLI(r, sql, tables, optimize, outMode, ctl, choose, 20000)
+		r.Probe("printed_" + outMode)
+		if oc.Finished && oc.Err == nil {
+			r.Log("printed:\n%s", ansiRe.ReplaceAllString(text, ""))
+			var cols []string
+			for _, tb := range []string{"l", "r", "s"}[:2+map[bool]int{false: 0, true: 1}[third]] {
+				for _, c := range []string{"k", "k2", "v", "id"} {
+					cols = append(cols, tb+"."+c)
+				}
+			}
+			printed, err := DecodePrinted(outMode, cols, text)
+			if err != nil {
+				r.Violate("C02", "unreadable_output", attrs, "%v", err)
+				return
+			}
+			for _, p := range printed {
+				nOut++
+				if p.Retr {
+					got.Add(p.Values, -1)
+				} else {
+					got.Add(p.Values, 1)
+				}
+			}
+		} else if oc.Finished && !strings.HasPrefix(oc.Err.Error(), "couldn't run query") && !strings.HasPrefix(oc.Err.Error(), "panic") {
+			r.Infra("query did not plan: %v", oc.Err)
+			return
+		}
+	}
 	r.AddEvents(nOut)
 	r.Sched(string(schedule), tableString(L), tableString(R), tableString(S))
 	r.NonTrivial(len(L)+len(R) >= 2)
@@ -237,7 +282,11 @@ func checkC02(r *Run) {
 		if strings.Contains(d, "NULL") && hasNullKey(L, R, S, nKeys) {
 			a["null_keys"] = "true"
 		}
-		r.Violate("C02", "result_mismatch", a, "consolidated output != SQL join: %s", d)
+		what := "consolidated output"
+		if outMode != "" {
+			what = "rows printed with -o " + outMode
+		}
+		r.Violate("C02", "result_mismatch", a, "%s != SQL join: %s", what, d)
 	}
 }
 
